@@ -1,4 +1,4 @@
 SPECIFICATION Spec
-CONSTANTS Peers = {s1}  Probe = probe  LogInAcceptLoop = FALSE  HeadFromWaitStart = TRUE
+CONSTANTS Peers = {s1}  Probe = probe  LogInAcceptLoop = FALSE  HeadFromWaitStart = TRUE  NoMitmWaitLimit = FALSE
 INVARIANTS NotClosedBefore
 CHECK_DEADLOCK FALSE
